@@ -657,13 +657,14 @@ func (V *Verifier) verifyFunction(fn *ssa.Function, lockMode bool) *FnResult {
 	if c != nil && f.exit.reach.S != "false" {
 		env := ex.frameEnv(f, f.exit, f.entry)
 		for _, e := range c.Ensures {
-			v, err := env.trans(e.Expr)
-			if err != nil {
-				V.fatal("%s ensures %q: %v", c.Key, e.Text, err)
-			}
 			lab := e.Label
 			if lab == "" {
 				lab = "post"
+			}
+			v, err := env.trans(e.Expr)
+			if err != nil {
+				ex.oblige(f, f.exit, "ensures", trimLabel2(lab)+":does-not-attach", e.Label, fn.Pos(), tFalse, "the contract no longer attaches to the code ("+err.Error()+"): "+e.Text)
+				continue
 			}
 			ex.oblige(f, f.exit, "ensures", trimLabel2(lab), e.Label, fn.Pos(), v.t, "postcondition: "+e.Text)
 		}
